@@ -12,6 +12,16 @@
 (* corresponding section was observed to have run (a credit has added when it   *)
 (* is parked in PutRetrieveTraffic; a notification has subtracted when it has   *)
 (* returned), which is the linearisation order the statement speaks of.         *)
+(*                                                                            *)
+(* Slow settlement layer (reset.slow): the events are call (burst | notify) /    *)
+(* grant (a goroutine that waited for room in the pay channel has moved on) /    *)
+(* payrelease / paydrain; `arrived` = "ret" | "send" (observed in state "chan    *)
+(* send") | "blocked", `done` = credits of the burst performed so far.  The      *)
+(* model follows the observation (Advance with the observed position); what the  *)
+(* queue model predicted instead is a conformance note.  The statement is judged *)
+(* at quiescence (paydrain): per peer, at least as many Pay calls were made as   *)
+(* credits left the balance at or above the threshold, and the balance measured  *)
+(* through Reserve equals credits minus notified payments.                       *)
 EXTENDS Accounting, TraceKit
 
 JThreads == 1..3
@@ -127,6 +137,61 @@ Notes(e, a, post) ==
   \o (IF e.op = "release" THEN Clause("release_found_the_goroutine_at_its_gate", e.done) ELSE <<>>)
   \o Clause("pay_channel_flushed", e.flushed)
 
+\* ------------------------------------------------------------------ slow settlement layer
+SlowCallOf(e) == IF e.kind = "burst" THEN BurstCall(e.p, e.x, e.n) ELSE CallOfEv(e)
+\* the burst of e.t as it starts: the balance before its first credit is remembered
+BurstStart(a, e) == [a EXCEPT !.loc[e.t] = [SlowCallOf(e) EXCEPT !.u = a.unpaid[e.p], !.d = 0]]
+WithoutSender(a, t) == [a EXCEPT !.sendq = SelectSeq(@, LAMBDA x : x # t)]
+\* what the queue model predicts for a goroutine that goes on: <<where it ends up, credits performed>>
+PredOf(b, t, n) == IF b.pc[t] = "idle" THEN <<"ret", n>> ELSE <<"send", b.loc[t].d>>
+
+SlowModel(e, a) ==
+  CASE e.op = "call" /\ e.kind = "burst" ->
+         IF e.arrived \in {"ret", "send"} /\ e.done >= 1 THEN Advance(BurstStart(a, e), e.t, 1, e.done, e.arrived = "ret")
+         ELSE IF e.arrived = "ret" THEN a ELSE [a EXCEPT !.pc[e.t] = "wait", !.loc[e.t] = SlowCallOf(e)]
+    [] e.op = "call" /\ e.kind # "burst" ->
+         IF e.arrived = "ret" THEN Enter(a, e.t, SlowCallOf(e)) ELSE [a EXCEPT !.pc[e.t] = "wait", !.loc[e.t] = SlowCallOf(e)]
+    [] e.op = "grant" ->
+         IF a.pc[e.t] = "c_send" /\ e.arrived \in {"ret", "send"} /\ e.done >= a.loc[e.t].d
+         THEN Advance(WithoutSender(a, e.t), e.t, a.loc[e.t].d, e.done, e.arrived = "ret")
+         ELSE IF a.pc[e.t] = "wait" /\ e.arrived = "ret" /\ a.loc[e.t].kind = "notify"
+         THEN Enter([a EXCEPT !.pc[e.t] = "idle"], e.t, a.loc[e.t])
+         ELSE a
+    [] e.op = "payrelease" -> IF e.rel /\ a.inpay # 0 THEN WorkerNext(a) ELSE a
+    [] e.op = "paydrain" -> [a EXCEPT !.q = <<>>, !.inpay = 0, !.paid = [p \in Peers |-> e.npaid[p]]]
+    [] OTHER -> a
+
+SlowVerdict(e, a, post) ==
+  IF e.op = "paydrain" /\ e.quiet THEN
+       \* a payment is requested whenever a credit leaves the unpaid balance at or above the threshold: at quiescence
+       \* every such credit of a peer has had its Pay call
+       Clause("C32:payment_requested_when_credit_reaches_threshold", \A p \in Peers : e.npaid[p] >= post.due[p])
+    \o (IF e.bal # <<>>
+        THEN Clause("C32:unpaid_balance_is_credits_minus_payments_never_negative",
+                    \A p \in Peers : e.bal[p] = post.unpaid[p] /\ e.bal[p] >= 0)
+        ELSE <<>>)
+  ELSE <<>>
+
+SlowNotes(e, a, post) ==
+  IF e.op = "stuck" THEN <<"goroutines_left_blocked">>
+  ELSE IF e.op = "skipped" THEN <<"call_skipped_goroutine_still_busy">>
+  ELSE IF e.op = "call" /\ e.kind = "burst" THEN
+       Clause("credit_waits_exactly_when_the_pay_queue_is_full",
+              <<e.arrived, e.done>> = PredOf(BurstGo(BurstStart(a, e), e.t, FALSE), e.t, e.n))
+  ELSE IF e.op = "call" THEN Clause("call_returned", e.arrived = "ret")
+  ELSE IF e.op = "grant" THEN
+       \* (during a drain the goroutines finish before the queue is seen empty: no prediction)
+       Clause("waiting_credit_goes_on_as_modelled",
+              /\ a.pc[e.t] = "c_send"
+              /\ e.after = "payrelease" => <<e.arrived, e.done>> = PredOf(BurstGo(WithoutSender(a, e.t), e.t, TRUE), e.t, a.loc[e.t].n))
+  ELSE IF e.op = "payrelease" THEN
+          Clause("pay_release_found_a_call_in_progress", e.rel /\ a.inpay = e.peer)
+       \o Clause("requests_are_served_in_fifo_order", e.rel => e.inpay = WorkerNext(a).inpay)
+  ELSE IF e.op = "paydrain" THEN
+          Clause("drain_left_nothing_in_flight", e.quiet /\ e.idle)
+       \o Clause("one_pay_call_per_request", \A p \in Peers : e.npaid[p] = a.pays[p])
+  ELSE <<>>
+
 \* ------------------------------------------------------------------ monitor
 TInit == /\ l = 1 /\ A = InitA /\ res = [op |-> "init"] /\ nops = 0 /\ bad = <<>> /\ notes = <<>>
          /\ win = [t \in Threads |-> {}] /\ due = {}
@@ -135,19 +200,25 @@ TStep ==
   /\ l <= NEvents
   /\ LET e == Trace[l]
          start == e.op = "reset"
-         a0 == IF start THEN [InitA EXCEPT !.unpaid = [p \in Peers |-> e.init[p]], !.known = [p \in Peers |-> ~e.fresh]] ELSE A
-         post == IF start THEN a0 ELSE Model(e, a0)
-         cs == IF start
+         a0 == IF start THEN [InitA EXCEPT !.unpaid = [p \in Peers |-> e.init[p]], !.known = [p \in Peers |-> ~e.fresh],
+                                            !.slow = e.slow] ELSE A
+         post == IF start THEN a0 ELSE IF a0.slow THEN SlowModel(e, a0) ELSE Model(e, a0)
+         cs == IF start /\ a0.slow
+               THEN Clause("C32:unpaid_balance_is_credits_minus_payments_never_negative", \A p \in Peers : e.bal[p] = a0.unpaid[p])
+               ELSE IF start
                THEN Clause("C32:unpaid_balance_is_credits_minus_payments_never_negative",
                            \A p \in Peers : e.probe[p] # <<>> => ProbeVal(e.probe[p]) = a0.unpaid[p])
+               ELSE IF a0.slow THEN SlowVerdict(e, a0, post)
                ELSE Verdict(e, a0, post)
-         ns == IF start THEN <<>> ELSE Notes(e, a0, post)
+         ns == IF start THEN <<>> ELSE IF a0.slow THEN SlowNotes(e, a0, post) ELSE Notes(e, a0, post)
          probed == (start \/ HasPays(e)) /\ e.probe # <<>>
      IN /\ l' = l + 1
         /\ bad' = IF cs = <<>> THEN bad ELSE Append(bad, BadRec(l, e, cs))
         /\ notes' = IF ns = <<>> \/ Len(notes) >= 20 THEN notes ELSE Append(notes, BadRec(l, e, ns))
         /\ A' = IF probed /\ cs # <<>>                          \* resynchronise to the probed balances
                 THEN [post EXCEPT !.unpaid = [p \in Peers |-> IF e.probe[p] # <<>> THEN ProbeVal(e.probe[p]) ELSE @[p]]]
+                ELSE IF a0.slow /\ ~start /\ cs # <<>> /\ e.bal # <<>>  \* ... to the measured balances
+                THEN [post EXCEPT !.unpaid = [p \in Peers |-> e.bal[p]]]
                 ELSE post
         /\ win' = IF start THEN [t \in Threads |-> {}] ELSE WinAfter(e, a0, post)
         /\ due' = IF start THEN {}
